@@ -116,6 +116,30 @@ def judge_pair(name1, s1, name2, s2, N, out):
     if bij is None:
         return
     out["bijections"] += 1
+    # the JSON form of the matching, for the Lean model of _classes_to_array / _populate_json_map / from_dict (BijJson.lean)
+    try:
+        import copy
+
+        from comb_spec_searcher.combinatorial_class import CombinatorialClass
+
+        ids = {}
+
+        def cid(c):
+            return ids.setdefault(c, len(ids))
+
+        def so(o):
+            return ".".join(map(str, o)) or "_"
+
+        # pylint: disable=protected-access
+        ent = ";".join(f"{cid(a)}-{cid(b)}:{so(o)}" for (a, b), o in bij._get_order.items())
+        j = json.loads(json.dumps(bij.to_jsonable()))
+        arr = ",".join(str(cid(CombinatorialClass.from_dict(copy.deepcopy(c)))) for c in j["classes"])
+        jm = ";".join(f"{i1}>" + "/".join(f"{i2}:{so(o)}" for i2, o in sub.items()) for i1, sub in j["order"].items())
+        back = ";".join(f"{cid(a)}-{cid(b)}:{so(o)}" for (a, b), o in Bijection.from_dict(copy.deepcopy(j))._get_order.items())
+        if all(isinstance(x, int) for o in bij._get_order.values() for x in o):
+            out.setdefault("bijson", []).append((ent, f"{arr} | {jm} | {back}", inp))
+    except Exception:  # noqa: BLE001  (reported below as bijection-json-roundtrip-raises)
+        pass
     cands = [("constructed", bij)]
     try:
         cands.append(("reloaded from JSON", Bijection.from_dict(json.loads(json.dumps(bij.to_jsonable())))))
